@@ -13,6 +13,8 @@ import (
 	"k8s.io/apimachinery/pkg/types"
 
 	"github.com/crossplane/crossplane/verifsim/kit"
+	"github.com/crossplane/crossplane/verifsim/pkgworld"
+	"github.com/crossplane/crossplane/verifsim/props/c19"
 	"github.com/crossplane/crossplane/verifsim/runner"
 	"github.com/crossplane/crossplane/verifsim/sim"
 	"github.com/crossplane/crossplane/verifsim/simapi"
@@ -63,6 +65,23 @@ func hasFin(m map[string]any, f string) bool {
 }
 
 func (prop) Run(t *testing.T, s *sim.Sim, res *runner.Result) {
+	// the statement has three parts that live in three worlds: claims/XRs/XRDs
+	// (W-claim, below), package revisions and the dependency lock (W-pkg) and
+	// composed Usages (usage world); only C08's own oracles speak in the
+	// borrowed worlds
+	switch s.Tape.Next(5) {
+	case 0:
+		s.OnlyPrefix = "C08/"
+		res.Counters["world/pkg"]++
+		pkgworld.RunC17(s, res)
+		return
+	case 1:
+		s.OnlyPrefix = "C08/"
+		res.Counters["world/usage"]++
+		c19.RunWorld(s, res)
+		return
+	}
+	res.Counters["world/claim"]++
 	st := &state{}
 	xrworld.Run(s, res, xrworld.Hooks{
 		Opts: func(tp *sim.Tape) xrworld.Opts {
